@@ -542,7 +542,11 @@ func (k *Kernel) addProposedHeader(ctx context.Context, s *kState, ph tmconsensu
 		for blockHash, laterSigs := range commitProofs {
 			target := backfillVRV.PrecommitProofs[blockHash]
 			if target == nil {
-				panic("TODO: backfill unknown block precommit")
+				// The proposer saw precommits for a target this mirror has nothing recorded for
+				// (for example a late nil precommit).
+				// There is no proof to merge those signatures into,
+				// and they are not needed for the commit we already hold, so skip them.
+				continue
 			}
 
 			laterSparseCommit := gcrypto.SparseSignatureProof{
